@@ -188,9 +188,25 @@ class Interp:
         for v in node.values:
             if isinstance(v, ast.FormattedValue):
                 _check_pure(v.value)
+        vals = node.values
+        # all parts constant (module constants included): an ordinary string constant
+        try:
+            parts = []
+            for v in vals:
+                if isinstance(v, ast.Constant) and isinstance(v.value, str):
+                    parts.append(v.value)
+                elif isinstance(v, ast.FormattedValue) and v.format_spec is None and v.conversion == -1:
+                    x = self.eval(v.value, st)
+                    if isinstance(x, bool) or not isinstance(x, (int, str)) and not (isinstance(x, VStr) and x.text is not None):
+                        raise Unsupported("not constant")
+                    parts.append(x.text if isinstance(x, VStr) else str(x))
+                else:
+                    raise Unsupported("not constant")
+            return VStr.const("".join(parts))
+        except Unsupported:
+            pass
         # f"prefix{int-expr}": a structured key (prefix, d) - distinct from every string constant of the program
         # (checked), injective in d
-        vals = node.values
         if len(vals) == 2 and isinstance(vals[0], ast.Constant) and isinstance(vals[0].value, str) and \
                 isinstance(vals[1], ast.FormattedValue) and vals[1].format_spec is None and vals[1].conversion == -1:
             try:
